@@ -40,4 +40,15 @@ void env_advance__ppcE_l (const Elem **it, long n);
 long env_distance__pE_pE (Elem *first, Elem *last);
 long env_distance__pcE_pcE (const Elem *first, const Elem *last);
 
+
+/* libstdc++ algorithms on element ranges (summaries) */
+Elem *env_copy__pcE_pcE_pE (const Elem *first, const Elem *last, Elem *d);
+Elem *env_copy__pE_pE_pE (Elem *first, Elem *last, Elem *d);
+Elem *env_copy_n__pcE_ul_pE (const Elem *first, unsigned long n, Elem *d);
+Elem *env_move__pE_pE_pE (Elem *first, Elem *last, Elem *d);
+Elem *env_move_backward__pE_pE_pE (Elem *first, Elem *last, Elem *d_last);
+void env_fill__pE_pE_pcE (Elem *first, Elem *last, const Elem *val);
+Elem *env_fill_n__pE_ul_pcE (Elem *first, unsigned long n, const Elem *val);
+Elem *env_swap_ranges__pE_pE_pE (Elem *first, Elem *last, Elem *first2);
+
 #endif
